@@ -217,4 +217,144 @@ theorem tarOneG_short_tree (g : Bool) (fs : FS) (root : P) (mask : Nat) (e : Ent
   · rfl
   · rfl
 
+/-! ### the copy step as system calls (Model/ExtractR.lean: `extractFileR`, `tarOneF`, `zipOneF`) -/
+
+/-- what the copy step makes of an entry: the bytes that reach the file, and whether the step is an error -/
+def afterCopy (flt : Faults) (path : P) (e : Entry) : Entry :=
+  { e with data := (ioCopy e.data e.short flt.writeLimit).1,
+           short := deferredClose (ioCopy e.data e.short flt.writeLimit).2 (flt.closeFails.contains path) }
+
+theorem setData_setData (a : Array Inode) (ino : Nat) (d1 d2 : List Nat) :
+    setData (setData a ino d1) ino d2 = setData a ino d2 := by
+  unfold setData
+  cases h : a[ino]? with
+  | none => simp [h]
+  | some n =>
+    have hlt : ino < a.size := by
+      rcases Nat.lt_or_ge ino a.size with h1 | h1
+      · exact h1
+      · rw [Array.getElem?_eq_none h1] at h; cases h
+    simp [h, Array.getElem?_setIfInBounds_self_of_lt hlt]
+
+theorem setData_push (a : Array Inode) (x : Inode) (d : List Nat) :
+    setData (a.push x) a.size d = a.push { x with data := d } := by
+  unfold setData
+  simp [Array.setIfInBounds]
+  apply Array.ext_getElem?
+  intro i
+  rw [Array.getElem?_set]
+  by_cases h : a.size = i
+  · subst h; simp
+  · simp [h, Array.getElem?_push]
+    have h' : ¬ i = a.size := fun e => h e.symm
+    simp [h']
+
+
+/-- open, write*, close on the resolving file system is `openWriteR` of the bytes that reached the file, with the
+    deferred-close result as the error -/
+theorem extractFileR_eq (flt : Faults) (fs1 : FS) (path : P) (mode : Nat) (payload : List Nat) (readErr : Bool) :
+    extractFileR flt fs1 path mode payload readErr =
+      match openWriteR fs1 path mode (ioCopy payload readErr flt.writeLimit).1 with
+      | none => (fs1, false)
+      | some fs2 => (fs2, !deferredClose (ioCopy payload readErr flt.writeLimit).2 (flt.closeFails.contains path)) := by
+  unfold extractFileR openTruncR openWriteR writeFd
+  cases h : statR fs1 path with
+  | found q n =>
+    cases n with
+    | file ino => simp [setData_setData]
+    | dir m => simp
+    | symlink t => simp
+  | missing q =>
+    simp only [FS.put]
+    simp [setData_push]
+  | err e => simp
+
+
+/-- the entry as the loop bodies WITHOUT a copy step see it: payload = the bytes that reached the file, `short` = the
+    copy step was an error (entries that have no copy step are unchanged) -/
+def tarFaulted (flt : Faults) (root : P) (e : Entry) : Entry :=
+  if e.kind = .reg then afterCopy flt (cleanJoin root e.name) e else e
+def zipFaulted (flt : Faults) (root : P) (e : Entry) : Entry :=
+  if e.kind = .symlink ∨ e.kind = .dir ∨ e.kind = .corrupt then e else afterCopy flt (cleanJoin root e.name) e
+
+theorem tarOneF_eq (flt : Faults) (fs : FS) (root : P) (mask : Nat) (e : Entry) :
+    tarOneF flt fs root mask e = tarOneR fs root mask (tarFaulted flt root e) := by
+  unfold tarOneF tarOneR tarOneG tarFaulted
+  cases hk : e.kind <;> (simp [hk, afterCopy, extractFileR_eq]; try rfl)
+
+theorem zipOneF_eq (flt : Faults) (fs : FS) (root : P) (mask : Nat) (e : Entry) :
+    zipOneF flt fs root mask e = zipOneR fs root mask (zipFaulted flt root e) := by
+  unfold zipOneF zipOneR zipOneG zipFaulted
+  cases hk : e.kind <;> (simp [hk, afterCopy, extractFileR_eq]; try rfl)
+
+theorem extractWith_map (one : FS → Entry → FS × Bool) (f : Entry → Entry) (es : List Entry) (fs : FS) :
+    extractWith (fun fs e => one fs (f e)) fs es = extractWith one fs (es.map f) := by
+  induction es generalizing fs with
+  | nil => rfl
+  | cons e t ih =>
+    simp only [List.map_cons, extractWith]
+    split <;> simp_all
+
+/-- the loops with faults are the fault-free loops on the entries as the copy step leaves them -/
+theorem tarExtractF_eq (flt : Faults) (fs : FS) (root : P) (mask : Nat) (es : List Entry) :
+    tarExtractF flt fs root mask es = tarExtractR fs root mask (es.map (tarFaulted flt root)) := by
+  unfold tarExtractF tarExtractR
+  rw [← extractWith_map]
+  congr 1; funext fs e; exact tarOneF_eq flt fs root mask e
+
+theorem zipExtractF_eq (flt : Faults) (fs : FS) (root : P) (mask : Nat) (es : List Entry) :
+    zipExtractF flt fs root mask es = zipExtractR fs root mask (es.map (zipFaulted flt root)) := by
+  unfold zipExtractF zipExtractR
+  rw [← extractWith_map]
+  congr 1; funext fs e; exact zipOneF_eq flt fs root mask e
+
+theorem afterCopy_nofault (path : P) (e : Entry) : afterCopy {} path e = e := by
+  cases e; simp [afterCopy, ioCopy, deferredClose]
+
+theorem tarFaulted_nofault (root : P) (e : Entry) : tarFaulted {} root e = e := by
+  unfold tarFaulted; split <;> simp [afterCopy_nofault]
+theorem zipFaulted_nofault (root : P) (e : Entry) : zipFaulted {} root e = e := by
+  unfold zipFaulted; split <;> simp [afterCopy_nofault]
+
+theorem tarExtractF_nofault (fs : FS) (root : P) (mask : Nat) (es : List Entry) :
+    tarExtractF {} fs root mask es = tarExtractR fs root mask es := by
+  rw [tarExtractF_eq]; congr 1
+  induction es with
+  | nil => rfl
+  | cons e t ih => simp [tarFaulted_nofault, ih]
+theorem zipExtractF_nofault (fs : FS) (root : P) (mask : Nat) (es : List Entry) :
+    zipExtractF {} fs root mask es = zipExtractR fs root mask es := by
+  rw [zipExtractF_eq]; congr 1
+  induction es with
+  | nil => rfl
+  | cons e t ih => simp [zipFaulted_nofault, ih]
+
+/-- a write that hits the limit, or a failing close, makes the copy step an error -/
+theorem afterCopy_short (flt : Faults) (path : P) (e : Entry)
+    (h : (∃ k, flt.writeLimit = some k ∧ e.data.length > k) ∨ flt.closeFails.contains path = true ∨ e.short = true) :
+    (afterCopy flt path e).short = true := by
+  unfold afterCopy ioCopy deferredClose
+  rcases h with ⟨k, hk, hl⟩ | h | h
+  · simp [hk, hl]
+  · have h' : path ∈ flt.closeFails := by simpa using h
+    cases hw : flt.writeLimit with
+    | none => cases hs : e.short <;> simp [h', hs]
+    | some k => by_cases hl : e.data.length > k <;> cases hs : e.short <;> simp [h', hl, hs]
+  · cases hw : flt.writeLimit with
+    | none => simp [h]
+    | some k => by_cases hl : e.data.length > k <;> simp [h, hl]
+
+/-- the bytes that reach the file: all that could be read, cut at the write limit -/
+theorem afterCopy_data (flt : Faults) (path : P) (e : Entry) :
+    (afterCopy flt path e).data = match flt.writeLimit with
+      | some k => e.data.take k
+      | none => e.data := by
+  unfold afterCopy ioCopy
+  cases hw : flt.writeLimit with
+  | none => rfl
+  | some k =>
+    by_cases hl : e.data.length > k
+    · simp [hl]
+    · simp [hl]; rw [List.take_of_length_le (by omega)]
+
 end Ex
